@@ -159,11 +159,10 @@ def exInp (order : Bool) : List (Bytes × PyVal) :=
 
 example : (exTask true).inpDict = exInp true ∧ (exTask false).inpDict = exInp false := ⟨rfl, rfl⟩
 
-/-- sets of scalars in both orders are `≃` (the Outputs class is compared by the theorem's `InputsEquiv` only through
-    `Equiv`, which does not relate classes with fields: the example therefore stops at the two input fields) -/
-example : InputsEquiv ((exInp true).take 2) ((exInp false).take 2) := by
-  simp only [exInp, List.take, InputsEquiv, Equiv, if_true, Bool.false_eq_true, if_false, ↓reduceIte]
+/-- the two presentations are `InputsEquiv` (hypothesis of `C07_checksum_env_invariant`) -/
+example : InputsEquiv (exInp true) (exInp false) := by
+  simp only [exInp, InputsEquiv, Equiv, if_true, Bool.false_eq_true, if_false, ↓reduceIte]
   exact ⟨trivial, ⟨trivial, [.sc (.str [120]), .sc (.str [121])], List.Perm.swap _ _ _, by simp [EquivList, Equiv]⟩,
-    trivial, ⟨_, List.Perm.refl _, by simp [EquivItems, Equiv]⟩, trivial⟩
+    trivial, ⟨_, List.Perm.refl _, by simp [EquivItems, Equiv]⟩, trivial, by simp [EquivList], trivial⟩
 
 end PydraModel.Hash
